@@ -243,3 +243,41 @@ func specValidChannelType(t datachannel.ChannelType) bool {
 func specPoolActive(g *ICEGatherer) bool {
 	return g.iceCandidatePoolSize > 0 && g.candidatePool != nil
 }
+
+// ---- C08: RFC 3264 section 6.1 — which answer direction is allowed for an offered one.
+func specLegalAnswer(offered, answered RTPTransceiverDirection) bool {
+	switch offered {
+	case RTPTransceiverDirectionSendonly:
+		return answered == RTPTransceiverDirectionRecvonly || answered == RTPTransceiverDirectionInactive
+	case RTPTransceiverDirectionRecvonly:
+		return answered == RTPTransceiverDirectionSendonly || answered == RTPTransceiverDirectionInactive
+	case RTPTransceiverDirectionInactive:
+		return answered == RTPTransceiverDirectionInactive
+	case RTPTransceiverDirectionSendrecv:
+		return answered == RTPTransceiverDirectionSendrecv || answered == RTPTransceiverDirectionSendonly ||
+			answered == RTPTransceiverDirectionRecvonly || answered == RTPTransceiverDirectionInactive
+	}
+
+	return false
+}
+
+// specPreferredFor: the local directions a fresh local transceiver may have to be paired
+// with a remote section of the given direction (a subset of the legal answers, before the
+// adjustment step; sendrecv local is adjusted to sendonly for a recvonly offer).
+func specPreferredFor(remote, local RTPTransceiverDirection) bool {
+	switch remote {
+	case RTPTransceiverDirectionSendrecv:
+		return local == RTPTransceiverDirectionRecvonly || local == RTPTransceiverDirectionSendrecv ||
+			local == RTPTransceiverDirectionSendonly
+	case RTPTransceiverDirectionSendonly:
+		return local == RTPTransceiverDirectionRecvonly
+	case RTPTransceiverDirectionRecvonly:
+		return local == RTPTransceiverDirectionSendonly || local == RTPTransceiverDirectionSendrecv
+	}
+
+	return false
+}
+
+func specValidDirection(d RTPTransceiverDirection) bool {
+	return d >= RTPTransceiverDirectionSendrecv && d <= RTPTransceiverDirectionInactive
+}
